@@ -393,9 +393,22 @@ impl Run {
                         .expect("spawn shard")
                 })
                 .collect();
-            let outs = handles.into_iter().map(|h| h.join().expect("shard thread panicked")).collect();
+            // a panic outside the guarded oracle (e.g. inside a strategy) must not leave the
+            // watchdog waiting: collect what finished, then report the harness error (exit 2)
+            let joined: Vec<_> = handles.into_iter().map(|h| h.join()).collect();
             done.store(true, Ordering::Relaxed);
             let _ = wd.join();
+            let mut outs = Vec::new();
+            for j in joined {
+                match j {
+                    Ok(o) => outs.push(o),
+                    Err(_) => {
+                        let (loc, msg) = panics::last().unwrap_or_else(|| ("unknown".into(), "panic".into()));
+                        println!("INCONCLUSIVE property={prop} sub={name}: the harness itself panicked outside an oracle ({loc}: {msg})");
+                        std::process::exit(2);
+                    }
+                }
+            }
             outs
         });
 
